@@ -240,10 +240,20 @@ impl<Effect, Event> Command<Effect, Event> {
         //
         // Note that there is an exception: the task may have used the waker and dropped it,
         // making it ready, rather than abandoned.
+        //
+        // The count has to be read before the flag. Every wake sets the flag before it drops
+        // its copy of the waker, so once we have seen that ours is the only copy left, every
+        // wake which has happened is visible in the flag. Reading the flag first would let another
+        // thread wake the task and drop the last copy between the two reads, and we would evict
+        // a task which is ready. `Arc::strong_count` is a relaxed load, hence the fence.
+        let waker_count = Arc::strong_count(&arc_waker);
+        #[cfg(crux_verif)]
+        crate::verif::point_val("cmd.run_task.count", waker_count as u64);
+        std::sync::atomic::fence(Ordering::Acquire);
         let task_is_ready = arc_waker.woken.load(Ordering::Acquire);
         #[cfg(crux_verif)]
         crate::verif::point_val("cmd.run_task.woken", u64::from(task_is_ready));
-        if result == TaskState::Suspended && !task_is_ready && Arc::strong_count(&arc_waker) < 2 {
+        if result == TaskState::Suspended && !task_is_ready && waker_count < 2 {
             #[cfg(crux_verif)]
             crate::verif::point("cmd.run_task.cancelled");
             return TaskState::Cancelled;
